@@ -65,6 +65,12 @@ class G15:
             vis = vis + [v]
         for _ in range(rng.randrange(2, 6)):
             lines.append(self.stmt(depth, vis, params))
+        if kind == "decl" and rng.random() < 0.25:
+            # the function declares a var with its own name and looks at it before the assignment,
+            # directly and through an inner closure
+            lines.insert(rng.randrange(len(locs), len(lines) + 1),
+                         "log(%d, typeof %s); log(%d, (function(){ return typeof %s; })()); var %s = %s; log(%d, typeof %s);"
+                         % (self.tag(), name, self.tag(), name, name, self.expr(vis), self.tag(), name))
         lines.append("return %s;" % self.expr(vis))
         body = "\n".join("  " + l for l in lines)
         if kind == "decl":
